@@ -165,3 +165,42 @@ impl<'a, T: ?Sized> RwLockUpgradableReadGuard<'a, T> {
         }
     }
 }
+
+// --- timed waits ---------------------------------------------------------------------------------
+// Time is not modelled: a time-out may fire at any moment.  While anything else can run that is a
+// costed deviation of the exploration (like a preemption); when nothing else can run it fires for
+// free (time passes), a bounded number of times per thread.  Durations and deadlines are ignored.
+#[derive(Debug, PartialEq, Eq, Copy, Clone)]
+pub struct WaitTimeoutResult(bool);
+impl WaitTimeoutResult { pub fn timed_out(&self) -> bool { self.0 } }
+impl Condvar {
+    pub fn wait_for<T: ?Sized>(&self, g: &mut MutexGuard<'_, T>, _timeout: std::time::Duration) -> WaitTimeoutResult {
+        point(Op::CondWait(self.id, g.m.id));
+        point(Op::CondReacquireTimed(self.id, g.m.id));
+        WaitTimeoutResult(detsched::last_timed_out())
+    }
+    pub fn wait_until<T: ?Sized>(&self, g: &mut MutexGuard<'_, T>, _deadline: std::time::Instant) -> WaitTimeoutResult {
+        self.wait_for(g, std::time::Duration::ZERO)
+    }
+    pub fn wait_while_for<T: ?Sized, F: FnMut(&mut T) -> bool>(&self, g: &mut MutexGuard<'_, T>, mut condition: F, timeout: std::time::Duration) -> WaitTimeoutResult {
+        while condition(&mut **g) {
+            if self.wait_for(g, timeout).timed_out() {
+                return WaitTimeoutResult(true);
+            }
+        }
+        WaitTimeoutResult(false)
+    }
+    pub fn wait_while_until<T: ?Sized, F: FnMut(&mut T) -> bool>(&self, g: &mut MutexGuard<'_, T>, condition: F, _deadline: std::time::Instant) -> WaitTimeoutResult {
+        self.wait_while_for(g, condition, std::time::Duration::ZERO)
+    }
+}
+impl<T: ?Sized> Mutex<T> {
+    pub fn try_lock_for(&self, _d: std::time::Duration) -> Option<MutexGuard<'_, T>> { self.try_lock() }
+    pub fn try_lock_until(&self, _d: std::time::Instant) -> Option<MutexGuard<'_, T>> { self.try_lock() }
+}
+impl<T: ?Sized> RwLock<T> {
+    pub fn try_read_for(&self, _d: std::time::Duration) -> Option<RwLockReadGuard<'_, T>> { self.try_read() }
+    pub fn try_write_for(&self, _d: std::time::Duration) -> Option<RwLockWriteGuard<'_, T>> { self.try_write() }
+    pub fn try_read_until(&self, _d: std::time::Instant) -> Option<RwLockReadGuard<'_, T>> { self.try_read() }
+    pub fn try_write_until(&self, _d: std::time::Instant) -> Option<RwLockWriteGuard<'_, T>> { self.try_write() }
+}
